@@ -28,7 +28,7 @@ theorem addNewTasks_desc (nts : List NewTask) (s s' : State) (r r' : List TaskId
     exact ⟨rfl, fun t ht => .inl ⟨t, ht, rfl, rfl⟩⟩
   | cons nt rest ih =>
     simp only [State.addNewTasks] at h
-    have hreg := registerDeps_spec nt.id nt.deps s.tasks
+    have hreg := registerDeps_specSys nt.id nt.deps s.tasks
     generalize registerDeps s.tasks nt.id nt.deps = reg at h hreg
     obtain ⟨ts, kept, n⟩ := reg
     simp only at h hreg
